@@ -3,7 +3,8 @@
    observation: per section the keys in order with their text. *)
 From Coq Require Import String Lia List.
 From Econf Require Import Bytes BytesFacts Grammar LineBase ParserFacts ParserFile
-                          WriterSpec WriterRender WriterWf WriterMeaning NumericSpec NumericFacts.
+                          WriterSpec WriterRender WriterWf WriterMeaning NumericSpec NumericFacts
+                          LayeredModel LayeredScenario WorldFacts.
 Local Open Scope N_scope.
 
 (* the writer's output for a writable object IS a conventional file ... *)
@@ -79,6 +80,22 @@ Print Assumptions C07_int_text_writable.
 
 (* non-vacuity: group-less key set after a sectioned one, a re-opened section,
    a quoted value with a comment character, a multi-line value, comments *)
+(* what econf_writeFile leaves on disk: on an existing directory (name not a directory) the call succeeds and the file
+   IS the text of the object, whatever the file held before (nothing, a shorter or a longer text: the file is
+   replaced, not overlaid); every other node of the tree, the objects and the error location are untouched *)
+Theorem C07_write_replaces_file : forall w o dir fname kf d1 d2,
+  sget (w_store w) o = Some kf ->
+  tlookup (w_tree w) (fs_resolve 8 (w_tree w) (squeeze dir)) = Some (NDir d1 d2) ->
+  (forall a b, tlookup (w_tree w) (fs_resolve 8 (w_tree w) (squeeze (dir ++ 47 :: fname))) <> Some (NDir a b)) ->
+  let p := fs_resolve 8 (w_tree w) (squeeze (dir ++ 47 :: fname)) in
+  let w' := fst (wstep w (WWriteTo o dir fname)) in
+  snd (wstep w (WWriteTo o dir fname)) = ORc ECONF_SUCCESS /\
+  tlookup (w_tree w') p = Some (NFile (write_model kf) 0 0) /\
+  (forall q, q <> p -> tlookup (w_tree w') q = tlookup (w_tree w) q) /\
+  w_store w' = w_store w /\ w_g w' = w_g w.
+Proof. exact write_replaces_file. Qed.
+Print Assumptions C07_write_replaces_file.
+
 Definition demo_kf : keyfile :=
   mkKF [mkE (bs "A") (bs "x") (Some (bs "1")) (Some (bs " about x")) (Some (bs " why")) 0 false;
         mkE none_s (bs "g") (Some (bs " keep # this ")) None None 0 true;
